@@ -245,6 +245,11 @@ class Source:
             if self.m[a] != self.text[a]:
                 continue  # inside comment / string
             res.append((a, op + mm.end()))
+        if count.startswith('#'):
+            k = int(count[1:])
+            if k < 1 or k > len(res):
+                raise AnchorError('fn %s: /%s/ matched %d times, match %s requested' % (fnpath, regex, len(res), count))
+            return [res[k - 1]]
         if count == 'all':
             if not res:
                 raise AnchorError('fn %s: /%s/ not found' % (fnpath, regex))
@@ -266,7 +271,7 @@ class Source:
             elif ch in ')]}':
                 d -= 1
                 if d < 0:
-                    return line_end(self.text, k - 1) if False else line_start(self.text, k)
+                    return line_start(self.text, k)
                 if d == 0 and ch == '}':
                     # block statement (if / match / loop): ends here unless followed by else / ; / .
                     rest = self.m[k + 1:k + 40].lstrip()
